@@ -3332,22 +3332,18 @@ class FocusedSeq(Construct):
             def {fname}(obj, io, this):
                 this = Container(_ = this, _params = this['_params'], _root = None, _parsing = False, _building = True, _sizing = False, _subcons = None, _io = io, _index = this.get('_index', None))
                 this['_root'] = this['_'].get('_root', this)
-                try:
-                    focus = {repr(self.parsebuildfrom)}
-                    this[focus] = obj
-                    finalobj = obj
+                focus = {repr(self.parsebuildfrom)}
+                this[focus] = obj
+                finalobj = obj
         """
         for sc in self.subcons:
             block += f"""
-                    obj = finalobj if {repr(sc.name)} == focus else None
-                    {f'buildret = '}{sc._compilebuild(code)}
-                    {f'this[{repr(sc.name)}] = buildret' if sc.name else ''}
-                    if {repr(sc.name)} == focus: finalret = buildret
+                obj = finalobj if {repr(sc.name)} == focus else None
+                {f'buildret = '}{sc._compilebuild(code)}
+                {f'this[{repr(sc.name)}] = buildret' if sc.name else ''}
+                if {repr(sc.name)} == focus: finalret = buildret
             """
         block += f"""
-                    pass
-                except StopFieldError:
-                    pass
                 return finalret
         """
         code.append(block)
